@@ -12,7 +12,7 @@ def main(argv):
     parts_kernel.model_part(rep, parts_kernel.THOROUGH_MODELS if thorough else parts_kernel.QUICK_MODELS)
     parts_kernel.trace_part(rep, PID, 600 if thorough else 300, [s * 100 + i for i in range(10 if thorough else 2)])
     # schedule replay: one preemption at every hook point (lock boundary / check-then-act window) of a victim producer, operator-level scenarios
-    parts_kernel.trace_part(rep, PID, 120 if thorough else 24, [s * 100 + 70 + i for i in range(4 if thorough else 1)], driver='drive-park', label='drive-park')
+    parts_kernel.trace_part(rep, PID, 120 if thorough else 45, [s * 100 + 70 + i for i in range(4 if thorough else 1)], driver='drive-park', label='drive-park')
     pp.run(rep, PID, common.pipeline_cfgs(rep, 'cuts'))
     rep.cov['rule'] = common.PIPE_RULE + '; ' + ('kernel traces: seeded scenarios (1-4 producers with legal and illegal scripts, 0-2 unsubscribers, adders, waiters, '
                        'inside-callback unsubscription, panicking teardowns; observable safe/eventually-safe/unsafe and the 5 subjects) run on the real '
